@@ -14,6 +14,7 @@ const EXT: &[(&str, &str)] = &[
     ("lib", "{ v: std.foldl(function(a, i) a + i, std.range(1, 5), 0), deep(n): if n == 0 then self.v else 1 + self.deep(n - 1), arr: [self.v, error 'el', 3], lazy: [std.extVar('p').c, 1] }"),
     ("o2", "{assert self.a > 0 : 'neg2', c: 3} + {a: -1, b: 2}"),
     ("o3", "{assert self.deep(30) > 0, deep(n): if n == 0 then 1 else self.deep(n - 1)} + {b: 2} + {c: 3}"),
+    ("m", "{ bad: std.map(function(x, y) x, [1, 2]), badk: std.mapWithKey(function(k) k, {a: 1}), ok: std.map(function(x) x + 1, [1, 2]), mixed: std.mapWithIndex(function(i, x) if i == 1 then error 'el1' else x, [5, 6]) }"),
     ("f", "function(x, y=std.extVar('lib').v) x + y"),
     ("g", "function(x) if x > 0 then error 'positive' else x"),
 ];
@@ -62,6 +63,11 @@ const SOURCES: &[&str] = &[
     "std.extVar('o2').b",
     "std.extVar('o2')",
     "std.extVar('o3').c",
+    "std.extVar('m').bad[0]",
+    "std.extVar('m').badk.a",
+    "std.extVar('m').ok",
+    "std.extVar('m').mixed[1]",
+    "std.extVar('m').mixed[0] + std.length(std.extVar('m').bad)",
 ];
 
 pub fn alphabet() -> Vec<Req> {
